@@ -141,6 +141,7 @@ func (e *EventSubscription) Enqueue(f func()) {
 	// assigned to the event subscription, so we pass it to one.
 	// This only applies if no locks are active
 	if locks == nil && count == 0 {
+		verifKick(e)
 		e.cache.inCh <- e
 	}
 }
@@ -155,6 +156,7 @@ func (e *EventSubscription) enqueueUnlock(f func()) {
 	e.mu.Unlock()
 
 	if count == 0 {
+		verifKick(e)
 		e.cache.inCh <- e
 	}
 }
@@ -171,6 +173,8 @@ func (e *EventSubscription) lockEvents(locks int) {
 func (e *EventSubscription) processQueue() {
 	e.mu.Lock()
 	defer e.mu.Unlock()
+	verifBegin(e)
+	defer verifEnd(e)
 	var f func()
 	idx := 0
 
@@ -178,6 +182,7 @@ func (e *EventSubscription) processQueue() {
 		for len(e.locks) > idx {
 			f = e.locks[idx]
 			idx++
+			verifYield(e)
 			f()
 		}
 
@@ -197,6 +202,7 @@ func (e *EventSubscription) processQueue() {
 	for len(e.queue) > idx {
 		f = e.queue[idx]
 		idx++
+		verifYield(e)
 		f()
 		if e.locks != nil {
 			copy(e.queue, e.queue[idx:])
@@ -288,6 +294,9 @@ func (e *EventSubscription) handleQueryEvent(subj string, payload []byte) {
 	for q, rs := range e.queries {
 		// Do not include queries still being requested
 		if rs.state <= stateRequested {
+			if verifGo(func() { e.enqueueUnlock(func() {}) }) {
+				continue
+			}
 			go e.enqueueUnlock(func() {})
 			continue
 		}
